@@ -43,6 +43,9 @@ structure SPkt where
   ver : Nat
   clen : Nat
   chash : Nat
+  /-- a packet the store MAY hold: Produce's extra empty segment beyond FinalBlockId when the input
+      ends with an empty buffer after an exact multiple of 8000 bytes (never fetched, no content) -/
+  opt : Bool := false
 deriving Repr, DecidableEq
 
 /-- packets `Produce(obj, ver, content)` must store -/
@@ -50,9 +53,9 @@ def specPackets (obj : Name) (ver : Nat) (content : Bytes) : List SPkt :=
   let cs := chunks content
   let last := cs.length - 1
   let segs := (List.range cs.length).zip cs |>.map fun (k, c) =>
-    (⟨segName obj ver k, ver, c.length, hashBytes c⟩ : SPkt)
+    (⟨segName obj ver k, ver, c.length, hashBytes c, false⟩ : SPkt)
   let m := encMeta (obj ++ [verComp ver]) (encComp (segComp last))
-  segs ++ [⟨metaName obj ver, ver, m.length, hashBytes m⟩]
+  segs ++ [⟨metaName obj ver, ver, m.length, hashBytes m, false⟩]
 
 def specPut (present : List SPkt) (p : SPkt) : List SPkt :=
   p :: present.filter (·.name ≠ p.name)
@@ -75,7 +78,7 @@ deriving DecidableEq, Repr
 def getVerdict (present : List SPkt) (n : Name) (pfx : Bool) (ans : Option (Name × Nat × Nat)) : GetVerdict :=
   let cands := candidates present n pfx
   match ans with
-  | none => if cands.isEmpty then .ok else .missing
+  | none => if cands.all (·.opt) then .ok else .missing
   | some (rn, len, h) =>
     match cands.find? (·.name == rn) with
     | none => .notStored
